@@ -315,6 +315,23 @@ End Ufo.
 Definition ufo_metric_vals (upem : Q) (masters : list (V.loc * fontinfo)) (m : metric) : list (V.loc * Q) :=
   map (fun p => (fst p, ufo_metric upem (snd p) m)) masters.
 
+(* fontir/src/glyph.rs synthesize_notdef (advance part): when the source has no .notdef, one is
+   generated with width upem/2 and height ascender - descender, at the default location and at every
+   other global location whose interpolated (ascender, descender, typo ascender, typo descender)
+   differ from the default's *)
+Definition q4_eqb (a b : Q * Q * Q * Q) : bool :=
+  let '(a1, a2, a3, a4) := a in let '(b1, b2, b3, b4) := b in
+  Qeq_bool a1 b1 && Qeq_bool a2 b2 && Qeq_bool a3 b3 && Qeq_bool a4 b4.
+
+Definition synth_notdef (upem : Q) (origin : V.loc) (masters : list (V.loc * fontinfo)) : glyph :=
+  let at_ m l := metric_at (ufo_metric_vals upem masters m) l in
+  let key l := (at_ Ascender l, at_ Descender l, at_ Os2TypoAscender l, at_ Os2TypoDescender l) in
+  let w := inject_Z (ot_round (upem * (1 # 2))) in
+  let src l := mkSrc l w (Some (at_ Ascender l - at_ Descender l)%Q) (at_ Os2TypoAscender l, at_ Os2TypoDescender l) in
+  mkGlyph true
+    (src origin ::
+     map src (filter (fun l => negb (loc_eqb l origin) && negb (q4_eqb (key l) (key origin))) (map fst masters))).
+
 (* ---- OpenType item variation store, from the specification --------------------------- *)
 (* region axis coordinates (start, peak, end) as raw F2Dot14 integers; a normalized
    coordinate is a raw F2Dot14 integer too, so the model's common denominator is 16384 *)
@@ -410,3 +427,36 @@ Fixpoint rows_eqb (a b : list (fregion * Z)) : bool :=
 
 Definition row_matches (model_ds : list (V.region * Z)) (row : list (fregion * Z)) : bool :=
   rows_eqb (canon (map (fun rd => (region_coords (fst rd), snd rd)) model_ds)) (canon row).
+
+(* ---- certified whole-table check (soundness: ProofsIvs.check_font_sound) --------------------- *)
+(* no delta other than the default region's is changed by the cast to i16 *)
+Definition deltas_fitb (pts : points) : bool :=
+  forallb (fun kd : nat * Q => Nat.eqb (fst kd) 0 || fits_i16 (ot_round (snd kd))) (raw_deltas (map fst pts) pts).
+
+(* one glyph: decoded hmtx/vmtx advance `dflt` and decoded HVAR/VVAR delta set `row` *)
+Definition check_glyph (first : bool) (all_locs : list V.loc) (nd : bool) (pts : points)
+           (o : V.loc) (dflt : Z) (row : list (fregion * Z)) : bool :=
+  match lookup o pts with
+  | Some v0 => (sat_u16 v0 =? dflt) && fits_u16 v0
+  | None => false
+  end
+  && row_matches (add_glyph first all_locs nd pts) row
+  && match glyph_model_points first all_locs nd pts with
+     | Some p => deltas_fitb p
+     | None => true
+     end.
+
+Fixpoint check_glyphs (first : bool) (all_locs : list V.loc) (o : V.loc) (gs : list (bool * points))
+         (dflts : list Z) (rows : list (list (fregion * Z))) : bool :=
+  match gs, dflts, rows with
+  | [], [], [] => true
+  | (nd, p) :: gs', d :: dflts', r :: rows' =>
+      check_glyph first all_locs nd p o d r && check_glyphs false all_locs o gs' dflts' rows'
+  | _, _, _ => false
+  end.
+
+(* all glyphs of the font in glyph order *)
+Definition check_font (d : direction) (o : V.loc) (gs : list glyph) (dflts : list Z)
+           (rows : list (list (fregion * Z))) : bool :=
+  check_glyphs true (flat_map (fun g => map s_loc (g_srcs g)) gs) o
+               (map (fun g => (g_notdef g, glyph_points d g)) gs) dflts rows.
